@@ -709,7 +709,7 @@ async def scenario_connect(subset, fail_at, fail_kind):
     from pyatv import conf
     from pyatv.support import http as http_mod
 
-    log = {"connected": [], "closed": [], "session_closed": 0, "tasks_run": 0}
+    log = {"connected": [], "closed": [], "session_closed": 0, "session_created": 0, "tasks_run": 0}
 
     class SM:
         session = None
@@ -718,7 +718,16 @@ async def scenario_connect(subset, fail_at, fail_kind):
             log["session_closed"] += 1
 
     async def create_session(session=None):
+        log["session_created"] += 1
         return SM()
+
+    from pyatv.storage.memory_storage import MemoryStorage
+
+    class Storage(MemoryStorage):
+        async def get_settings(self, config):
+            if fail_kind == "get_settings":
+                raise Boom("storage backend failed")
+            return await super().get_settings(config)
 
     def mk_setup(proto, idx):
         def setup(core):
@@ -778,7 +787,7 @@ async def scenario_connect(subset, fail_at, fail_kind):
         for p in subset:
             cfg.add_service(conf.ManualService("id-%s" % p.name, p, 1000, {}))
         try:
-            atv = await pyatv.connect(cfg, asyncio.get_event_loop())
+            atv = await pyatv.connect(cfg, asyncio.get_event_loop(), storage=Storage())
             res = "ok"
             tasks = atv.close()
             if tasks:
@@ -792,8 +801,8 @@ async def scenario_connect(subset, fail_at, fail_kind):
             for name in log["connected"]:
                 if name not in log["closed"]:
                     leaks.append("protocol %s left connected" % name)
-            if log["session_closed"] != 1:
-                leaks.append("session manager closed %d times" % log["session_closed"])
+            if log["session_closed"] != log["session_created"] or log["session_created"] > 1:
+                leaks.append("session manager created %d times, closed %d times" % (log["session_created"], log["session_closed"]))
             pending = [t for t in asyncio.all_tasks() if t is not asyncio.current_task() and not t.done()]
             if pending:
                 leaks.append("%d background task(s) left" % len(pending))
@@ -1060,11 +1069,11 @@ def run(ctx):
     for k in range(1, 6):
         for subset in itertools.combinations(protos, k):
             for fail_at in range(k):
-                for kind in ("exn", "oserror", "device_info", "interfaces", "features", "setup"):
+                for kind in ("exn", "oserror", "device_info", "interfaces", "features", "setup", "get_settings"):
                     r = vloop.run(scenario_connect, list(subset), fail_at, kind)
                     if kind == "features" and r["result"] == "ok":
                         continue     # the facade did not iterate the feature set: nothing was injected
-                    ctx.case(("connect", tuple(p.name for p in subset), fail_at, kind), nontrivial=fail_at > 0 or kind not in ("exn", "oserror", "setup"),
+                    ctx.case(("connect", tuple(p.name for p in subset), fail_at, kind), nontrivial=fail_at > 0 or kind not in ("exn", "oserror", "setup", "get_settings"),
                              sample={"op": "connect", "protocols": [p.name for p in subset], "failing": fail_at, "result": r["result"], "leaks": r["leaks"]} if fail_at == 1 else None)
                     ctx.count("connect:" + kind)
                     if r["result"] == "ok":
